@@ -101,6 +101,25 @@ def builder_form(stmts):
                     out.append(ast.fix_missing_locations(new))
                     i += 2
                     continue
+        # D = {} directly followed by `for x in XS: [if c:] D[K] = E` (nothing else in the loop; K, E, XS and c do not mention D) is
+        # D = {K: E for x in XS if c}   (a later store to an equal key replaces the earlier one in both forms)
+        s_t = s.targets[0] if isinstance(s, ast.Assign) and len(s.targets) == 1 else (s.target if isinstance(s, ast.AnnAssign) and s.value is not None else None)
+        if isinstance(s_t, ast.Name) and isinstance(s.value, ast.Dict) and not s.value.keys \
+                and isinstance(nxt, ast.For) and not nxt.orelse and len(nxt.body) == 1:
+            D = s_t.id
+            b, conds = nxt.body[0], []
+            if isinstance(b, ast.If) and not b.orelse and len(b.body) == 1:
+                conds, b = [b.test], b.body[0]
+            if isinstance(b, ast.Assign) and len(b.targets) == 1 and isinstance(b.targets[0], ast.Subscript) and isinstance(b.targets[0].value, ast.Name) \
+                    and b.targets[0].value.id == D and not isinstance(b.targets[0].slice, ast.Slice):
+                key, val = b.targets[0].slice, b.value
+                mentions = any(isinstance(n, ast.Name) and n.id == D for e in [key, val, nxt.iter, nxt.target] + conds for n in ast.walk(e))
+                if not mentions and not any(isinstance(n, (ast.Yield, ast.YieldFrom, ast.Await, ast.NamedExpr)) for e in [key, val] + conds for n in ast.walk(e)):
+                    comp = ast.DictComp(key=key, value=val, generators=[ast.comprehension(target=nxt.target, iter=nxt.iter, ifs=conds, is_async=0)])
+                    new = ast.copy_location(ast.Assign(targets=[ast.Name(id=D, ctx=ast.Store())], value=ast.copy_location(comp, nxt)), s)
+                    out.append(ast.fix_missing_locations(new))
+                    i += 2
+                    continue
         # x = 0 directly followed by `for v in XS: x += E` (nothing else in the loop; E and XS do not mention x) is x = sum(E for v in XS)
         if isinstance(s, ast.Assign) and len(s.targets) == 1 and isinstance(s.targets[0], ast.Name) and isinstance(s.value, ast.Constant) and s.value.value == 0 \
                 and type(s.value.value) is int and isinstance(nxt, ast.For) and not nxt.orelse and len(nxt.body) == 1 and isinstance(nxt.body[0], ast.AugAssign) \
